@@ -89,6 +89,9 @@ func ToGo(v rc.Val) any {
 	case rc.KInt:
 		return goInt(v)
 	case rc.KBytes:
+		if v.Nil && len(v.B) == 0 {
+			return []byte(nil)
+		}
 		return append([]byte{}, v.B...)
 	case rc.KText:
 		return string(v.B)
